@@ -19,9 +19,17 @@ that amplitude off the `k_1` line (`self.miner_elementary().cycles`), `MinerElem
 `k_2 = k_1` on the shifted curve.  The unrepaired `gassner_cycles` (largest amplitude of ALL classes, the
 object's own `k_2` below `SD`) is kept as `gassnerCyclesOld` so that the defect is stated and refuted in Lean.
 
+Curves given for a native failure probability other than 50 % and with scatter (`TN`, `TS`): `Fatigue.damage`,
+`WoehlerCurve.cycles` and therefore `gassner_cycles` always evaluate the curve transformed to 50 %
+(`transform_to_failure_probability(0.5)`, modelled in `Model/Woehler.lean` - imported, not re-modelled).  The
+section "native curves" at the end lifts every function to a `Woehler.Curve` through `at50`.  Second repair
+(tools/fixes/C11-haibach-knee-at-50pct.diff): `MinerHaibach.lifetime_multiple` splits the classes at the knee of the
+50 % curve (before: at the native `SD`, inconsistent with the curve the damage is computed on).
+
 Generic in the carrier (see `Model/Num.lean`): `Float` in the driver, `ℝ` in the proofs.  No Mathlib.
 -/
 import Model.Num
+import Model.Woehler
 namespace PylifeVerif.Miner
 
 variable {α : Type} [Add α] [Sub α] [Mul α] [Div α] [Neg α] [OfScientific α]
@@ -132,5 +140,44 @@ def scaleAmps (t : α) (l : Coll α) : Coll α := l.map fun p => (t * p.1, p.2)
 
 /-- the collective applied for `N` cycles in total (same shape) -/
 def applyFor (N : α) (l : Coll α) : Coll α := scaleCounts (N / total l) l
+
+/-! ## native curves: failure probability and scatter (`Model/Woehler.lean`) -/
+
+/-- the four parameters the Miner code reads off a validated Wöhler curve signal -/
+def ofWoehler (w : Woehler.Curve α) : Curve α :=
+  { k1 := w.k1
+    k2 := match w.k2 with
+      | Woehler.Life.finite k => if Transc.isFinite k then some k else none
+      | Woehler.Life.inf => none
+    SD := w.SD
+    ND := w.ND }
+
+/-- the curve `cycles()` / `Fatigue.damage` work on: `transform_to_failure_probability(0.5)` -/
+def at50 (ppf : α → α) (w : Woehler.Curve α) : Curve α := ofWoehler (Woehler.transform ppf w 0.5)
+
+/-- `Fatigue(w).damage(collective)` (per class) and its sum -/
+def damageW (ppf : α → α) (w : Woehler.Curve α) (l : Coll α) : List α := damage (at50 ppf w) l
+def damageSumW (ppf : α → α) (w : Woehler.Curve α) (l : Coll α) : α := damageSum (at50 ppf w) l
+
+/-- `MinerElementary(w).lifetime_multiple` (curve-free apart from `k_1`) -/
+def lifetimeMultipleElementaryW (w : Woehler.Curve α) (l : Coll α) : α := lifetimeMultipleElementary (ofWoehler w) l
+
+/-- `MinerHaibach(w).lifetime_multiple` (repaired: knee of the 50 % curve) -/
+def lifetimeMultipleHaibachW (ppf : α → α) (w : Woehler.Curve α) (l : Coll α) : α :=
+  lifetimeMultipleHaibach (at50 ppf w) l
+
+/-- `MinerHaibach(w).lifetime_multiple` before the second repair: knee at the native `SD` -/
+def lifetimeMultipleHaibachNativeKnee (w : Woehler.Curve α) (l : Coll α) : α :=
+  lifetimeMultipleHaibach (ofWoehler w) l
+
+/-- `gassner_cycles`: `miner_elementary().cycles(max occupied amplitude)` is read off the 50 % curve -/
+def gassnerCyclesElementaryW (ppf : α → α) (w : Woehler.Curve α) (l : Coll α) : α :=
+  gassnerCycles (at50 ppf w) l (lifetimeMultipleElementaryW w l)
+def gassnerCyclesHaibachW (ppf : α → α) (w : Woehler.Curve α) (l : Coll α) : α :=
+  gassnerCycles (at50 ppf w) l (lifetimeMultipleHaibachW ppf w l)
+
+/-- `MinerElementary(w).gassner(collective)`: the NATIVE curve with `ND * A_ele` and `k_2 = k_1` -/
+def gassnerCurveW (w : Woehler.Curve α) (l : Coll α) : Woehler.Curve α :=
+  { w with ND := w.ND * lifetimeMultipleElementaryW w l, k2 := Woehler.Life.finite w.k1 }
 
 end PylifeVerif.Miner
